@@ -304,7 +304,21 @@ fn case(proto: Proto, layer: Layer) -> BoxedStrategy<ValCase> {
   ];
   // the batteries-included parser has its own validators for exp/nbf; iat (index 7) only carries plain values here
   let tok = (vec((0u8..9, member_value()), 0..5), corruption).prop_map(|(members, corruption)| TokVar { members, corruption });
-  (gen::bytes32(), vec((0u8..9, 0u8..5), 0..5), vec(tok, 1..=6), prop_oneof![Just(None), gen::jsonish(6).prop_map(Some)], prop_oneof![Just(None), gen::jsonish(6).prop_map(Some)])
+  // histories: some tokens repeat the previous one verbatim (same text), authentic again or presented under a wrong key /
+  // footer / assertion - a parser that remembers its last token must not behave differently
+  let toks = vec((tok, 0u8..8), 1..=6).prop_map(|v| {
+    let mut out: Vec<TokVar> = vec![];
+    for (t, rep) in v {
+      match (rep, out.last().cloned()) {
+        (0, Some(prev)) => out.push(TokVar { members: prev.members, corruption: Corruption::None }),
+        (1, Some(prev)) => out.push(TokVar { members: prev.members, corruption: Corruption::WrongKey }),
+        (2, Some(prev)) => out.push(TokVar { members: prev.members, corruption: Corruption::WrongFooter }),
+        _ => out.push(t),
+      }
+    }
+    out
+  });
+  (gen::bytes32(), vec((0u8..9, 0u8..5), 0..5), toks, prop_oneof![Just(None), gen::jsonish(6).prop_map(Some)], prop_oneof![Just(None), gen::jsonish(6).prop_map(Some)])
     .prop_map(move |(seed, validators, tokens, footer, assertion)| ValCase { proto, layer, seed, validators, tokens, footer, assertion })
     .boxed()
 }
